@@ -35,18 +35,14 @@ theorem pl_seqSep_brk (w col i : Nat) (st : List Frame) :
   simp only [seqSepDoc, pl_concat, mkFrames, List.cons_append, List.nil_append, pl_ifBreak_brk, pl_nil,
     pl_line_brk]
 
-/-- no step of the (restricted) fragment is "tall": a chain of several terms has no call-ender before
-    its last term -/
-theorem isTall_false {t : T} (hwf : T.WF t) (body : Doc) : isTall t body = false := by
+/-- a step that is not a pipeline is not "tall" -/
+theorem isTall_false {t : T} (hnp : noPipe t = true) (body : Doc) : isTall t body = false := by
   cases t with
   | chain f more =>
-    obtain ⟨_, _, _, _, hok⟩ := hwf
-    simp only [chainOk, Bool.and_eq_true] at hok
     have : ((f :: more).dropLast.any isIdent) = false := by
-      have h := hok.1
-      simp only [List.all_eq_true, Bool.not_eq_true'] at h
+      simp only [noPipe, List.all_eq_true, Bool.not_eq_true'] at hnp
       simp only [List.any_eq_false]
-      intro x hx; simp [h x hx]
+      intro x hx; simp [hnp x hx]
     simp [isTall, this]
   | leaf _ => rfl
   | int _ => rfl
@@ -54,7 +50,7 @@ theorem isTall_false {t : T} (hwf : T.WF t) (body : Doc) : isTall t body = false
   | str _ => rfl
   | tup _ _ => rfl
 
-theorem restPrintAs (ts : List T) (hwf : ∀ t ∈ ts, T.WF t) :
+theorem restPrintAs (ts : List T) (hwf : ∀ t ∈ ts, T.WF t) (hnp : ∀ t ∈ ts, noPipe t = true) :
     ∀ (w col i : Nat) (m : Mode) (st : List Frame),
       ∃ ps' ps col', printLoop w col (mkFrames i m (restDocs false ts) ++ st) [] = ps' ++ printLoop w col' st [] ∧
         renderPieces ps' = renderPieces ps ∧ RestP (isBrk m) ts ps := by
@@ -66,8 +62,8 @@ theorem restPrintAs (ts : List T) (hwf : ∀ t ∈ ts, T.WF t) :
     intro w col i m st
     have ht : PrintsAs (fieldDoc (chainDocOf t)) (LayP t) :=
       printsAs_fieldDoc (printsAs_chainDocOf (printLoop_term t (hwf t (by simp))))
-    have ih' := ih (fun x hx => hwf x (by simp [hx]))
-    simp only [restDocs, isTall_false (hwf t (by simp)), Bool.or_self, Bool.false_eq_true, if_false,
+    have ih' := ih (fun x hx => hwf x (by simp [hx])) (fun x hx => hnp x (by simp [hx]))
+    simp only [restDocs, isTall_false (hnp t (by simp)), Bool.or_self, Bool.false_eq_true, if_false,
       mkFrames, List.cons_append, List.nil_append]
     cases m with
     | flat =>
@@ -87,24 +83,35 @@ theorem restPrintAs (ts : List T) (hwf : ∀ t ∈ ts, T.WF t) :
 
 /-- `sequence_doc_with` prints a layout of the sequence -/
 theorem printsAs_sequence {ts : List T} (hwf : WFProg ts) : PrintsAs (sequenceDoc ts) (SeqP ts) := by
-  obtain ⟨hne, hall⟩ := hwf
+  obtain ⟨hne, hall, hpipe⟩ := hwf
   cases ts with
   | nil => exact absurd rfl hne
   | cons t ts =>
     intro w col i m st
-    simp only [sequenceDoc, Doc.mkGroup, isTall_false (hall t (by simp))]
-    obtain ⟨m', hg⟩ := pl_group w col i m st
-      (.concat [fieldDoc (chainDocOf t), .nest 0 (.concat (restDocs false ts))])
-      (forcesBreak (.concat [fieldDoc (chainDocOf t), .nest 0 (.concat (restDocs false ts))]))
-    rw [hg, pl_concat]
-    simp only [mkFrames, List.cons_append, List.nil_append]
     have hfd : PrintsAs (fieldDoc (chainDocOf t)) (LayP t) :=
       printsAs_fieldDoc (printsAs_chainDocOf (printLoop_term t (hall t (by simp))))
-    obtain ⟨ps', ps, col1, hp, hr, hl⟩ := hfd w col i m'
-        (⟨i, m', .nest 0 (.concat (restDocs false ts))⟩ :: st)
+    -- the `rest` of the sequence: empty (one step), or steps that are not pipelines
+    have hrest : ∃ b, restDocs (isTall t (chainDocOf t)) ts = restDocs b ts ∧
+        (ts = [] ∨ (b = false ∧ ∀ x ∈ ts, noPipe x = true)) := by
+      rcases hpipe with h1 | hnp
+      · have : ts = [] := by simpa using h1
+        exact ⟨_, rfl, .inl this⟩
+      · exact ⟨false, by rw [isTall_false (hnp t (by simp))], .inr ⟨rfl, fun x hx => hnp x (by simp [hx])⟩⟩
+    obtain ⟨b, hb, hcase⟩ := hrest
+    simp only [sequenceDoc, Doc.mkGroup, hb]
+    obtain ⟨m', hg⟩ := pl_group w col i m st
+      (.concat [fieldDoc (chainDocOf t), .nest 0 (.concat (restDocs b ts))])
+      (forcesBreak (.concat [fieldDoc (chainDocOf t), .nest 0 (.concat (restDocs b ts))]))
+    rw [hg, pl_concat]
+    simp only [mkFrames, List.cons_append, List.nil_append]
+    obtain ⟨ps', ps, col1, hp, hr, hl⟩ := hfd w col i m' (⟨i, m', .nest 0 (.concat (restDocs b ts))⟩ :: st)
     rw [hp, pl_nest, pl_concat, Nat.add_zero]
-    obtain ⟨rs', rs, col2, hq, hr2, hrest⟩ :=
-      restPrintAs ts (fun x hx => hall x (by simp [hx])) w col1 i m' st
+    have hrs : ∃ rs' rs col2, printLoop w col1 (mkFrames i m' (restDocs b ts) ++ st) [] =
+        rs' ++ printLoop w col2 st [] ∧ renderPieces rs' = renderPieces rs ∧ RestP (isBrk m') ts rs := by
+      rcases hcase with rfl | ⟨rfl, hnp⟩
+      · exact ⟨[], [], col1, by simp [restDocs, mkFrames], rfl, .nil⟩
+      · exact restPrintAs ts (fun x hx => hall x (by simp [hx])) hnp w col1 i m' st
+    obtain ⟨rs', rs, col2, hq, hr2, hrest⟩ := hrs
     rw [hq]
     exact ⟨ps' ++ rs', ps ++ rs, col2, by simp, by simp [renderPieces_append, hr, hr2],
       _, t, ts, ps, rs, rfl, rfl, hl, hrest⟩
